@@ -1,5 +1,6 @@
 //! sfverif: property-based-testing / fuzzing machinery deciding the listed properties C01..C18 of the
 //! `sliding_features` crate (path dependency on /repo, so every build sees /repo's working tree).
+pub mod alloc;
 pub mod catalog;
 pub mod core;
 pub mod exec;
